@@ -208,7 +208,11 @@ class Prover:
             o.status, o.stage = "unsat", "simplify"
             o.time = time.time() - t0
             return o
-        self._solve(o, N != 0, try_free=True)
+        # witness preference: |a - b| >= 1/8 (on the values, i.e. numerator against the common denominator)
+        from .scalars import _dmerge_max, _dprod_term
+        D = _dprod_term(_dmerge_max(a.d, b.d))
+        lim = z3.RatVal(1, 64) if D is None else z3.RatVal(1, 64) * D * D
+        self._solve(o, N != 0, try_free=True, pref=(N * N >= lim))
         o.time = time.time() - t0
         return o
 
@@ -228,7 +232,7 @@ class Prover:
         return res
 
     # -------------------------------------------------------------------------------- solving
-    def _solve(self, o, negated_goal, try_free):
+    def _solve(self, o, negated_goal, try_free, pref=None):
         c = self.c
         bc = c.base_constraints()
         axs_free = list(_ax.instances([negated_goal], c))
@@ -281,19 +285,24 @@ class Prover:
             o.model = model_env(s.model(), c)
             # prefer a well-conditioned witness (|v| <= 8) for the replay in floating point; fresh solver
             # (an incremental push/pop would leave z3's QF_NRA procedure and ignore the timeout)
-            s2 = _ctx.mk_solver(3000)
-            for a in bc:
-                s2.add(a)
-            for a in axs:
-                s2.add(a)
-            s2.add(negated_goal)
-            for name, t in c.symbols.items():
-                if z3.is_real(t):
-                    s2.add(t <= 8, t >= -8)
-            for w in getattr(c, "witness_prefs", []):
-                s2.add(w)
-            if s2.check() == z3.sat:
-                o.model = model_env(s2.model(), c)
+            # (with `pref`: a witness whose violation is large enough to survive floating point)
+            for use_pref in ((True, False) if pref is not None else (False,)):
+                s2 = _ctx.mk_solver(3000)
+                for a in bc:
+                    s2.add(a)
+                for a in axs:
+                    s2.add(a)
+                s2.add(negated_goal)
+                if use_pref:
+                    s2.add(pref)
+                for name, t in c.symbols.items():
+                    if z3.is_real(t):
+                        s2.add(t <= 8, t >= -8)
+                for w in getattr(c, "witness_prefs", []):
+                    s2.add(w)
+                if s2.check() == z3.sat:
+                    o.model = model_env(s2.model(), c)
+                    break
         else:
             o.status, o.stage = "unknown", "solver-full:" + str(s.reason_unknown())[:60]
         self._sample(o, s)
